@@ -24,6 +24,15 @@ CHECKS = {
    note="Trusted: TLC, Hex.tla digit arithmetic (self-tested against python fractions each run), harness digit conversion. "
         "Domain: -0.0 excluded; only normalised reals decoded.",
    tech="TLA+ executable spec of the codec + TLC enumeration; S->I replay and I->S trace validation"),
+ "C13": dict(cat="model_checking", ref="§6 C13",
+   text="Contains.tla defines closed-region membership with exact integer cross products; TLC enumerates every simple "
+        "polygon as a vertex sequence on small lattices (built one vertex per step), checks that three different rays agree and "
+        "that vertex insertion/translation change nothing, and emits the inside bitmap of every window point; all are replayed "
+        "into Polygon/Rect/Path::contains (with translated and vertex-inserted variants). Random larger rectilinear, 45-degree "
+        "and star polygons recorded from the code are validated answer by answer by TLC.",
+   note="Trusted: TLC, the harness's polygon constructors, the random generators (their output is re-checked for simplicity by "
+        "TLC). Paths: three-valued oracle, caps/corners unconstrained.",
+   tech="TLA+ exact-geometry spec + TLC exhaustive small-lattice enumeration; S->I replay and I->S trace validation"),
 }
 
 PENDING = {}
